@@ -282,7 +282,13 @@ fn autocorr(x: &Series, lag: usize, mp: usize) -> Option<f64> {
 
 fn half_life_case(ctx: &mut Ctx, rng: &mut Rng, x: &Series, label: &str) {
     let len = x.len();
-    let mp = if rng.chance(0.3) { None } else { Some(rng.range_usize(1, len.max(1))) };
+    // small min_periods keep the autocorrelation defined at large lags (so that the exact value
+    // can be asserted); larger ones exercise the "undefined -> stop" branches
+    let mp = match rng.below(10) {
+        0..=1 => None,
+        2..=6 => Some(rng.range_usize(1, 2)),
+        _ => Some(rng.range_usize(1, len.max(1))),
+    };
     let mpe = mp.unwrap_or(len / 2);
     let sv = SpyVec::new(enc_f64(x));
     let log2 = (usize::BITS - len.max(1).leading_zeros()) as u64;
@@ -367,7 +373,7 @@ fn main() {
             }
         }
     }
-    let nr = ctx.budget(400, 8000);
+    let nr = ctx.budget(2000, 40000);
     for k in 0..nr {
         if let Some(mut rng) = ctx.random_case() {
             let len = rng.range_usize(2, 120);
